@@ -227,3 +227,34 @@ theorem natCast_div_le_one (a n : Nat) (h : a ≤ n) (hn : 0 < n) : ((a : Nat) :
   exact this
 
 end Omen
+
+namespace Omen
+
+theorem bump_total (k : Option Nat) (c : LCtr) : ((bump k c).map (·.2)).sum = (c.map (·.2)).sum + 1 := by
+  induction c with
+  | nil => simp [bump]
+  | cons e r ih =>
+    obtain ⟨a, n⟩ := e
+    unfold bump
+    by_cases h : a == k
+    · simp only [h, if_true, List.map_cons, List.sum_cons]; omega
+    · have h' : (a == k) = false := by simpa using h
+      simp only [h', Bool.false_eq_true, if_false, List.map_cons, List.sum_cons, ih]; omega
+
+/-- every password of the list is tallied exactly once in the third pass (under its level, or under −1) -/
+theorem levelsCount_total (t : TTables) (pws : List Str) : ((t.levelsCount pws).map (·.2)).sum = pws.length := by
+  unfold TTables.levelsCount
+  have h : ∀ (ps : List Str) (c : LCtr),
+      ((ps.foldl (fun c pw => bump (t.trainerLevel pw) c) c).map (·.2)).sum = (c.map (·.2)).sum + ps.length := by
+    intro ps
+    induction ps with
+    | nil => intro c; simp
+    | cons p r ih =>
+      intro c
+      simp only [List.foldl_cons, List.length_cons]
+      rw [ih, bump_total]
+      omega
+  rw [h pws []]
+  simp
+
+end Omen
